@@ -103,6 +103,13 @@ func c17Program(t *rapid.T) string {
 	cfg.CF.PSNoDirectContinue = true
 	cfg.MaxTops = 5
 	f := GenFile(t, cfg)
+	if scripts := f.Scripts(); len(scripts) > 0 && rapid.IntRange(0, 5).Draw(t, "emitfail") == 0 {
+		// an error raised by the emitter (not the parser): a script label equal to a text label,
+		// at the end of a script so that the emitter has already worked on the script
+		sc := scripts[rapid.IntRange(0, len(scripts)-1).Draw(t, "emitfailscript")]
+		sc.Body.Stmts = append(sc.Body.Stmts, sLabel("ClashTxt"))
+		f.Tops = append(f.Tops, &Top{K: "text", Text: &TextStmt{Name: "ClashTxt", Val: &TextVal{Lit: &StrLit{Parts: []string{"clash"}}}}})
+	}
 	src := Canon(f)
 	if rapid.IntRange(0, 3).Draw(t, "break") == 0 {
 		// make it invalid somewhere: errors must be repeatable too
